@@ -966,9 +966,12 @@ def replay(path):
         rs = eval_sequences([sq], impl, model)[0]
         print('pattern        %r   (ONE PatternFormatter object, %d calls)' % (sq[0]['pat'], len(sq)))
         for d in describe_sequence(sq, rs):
-            print('call %d: message %r type=%d attributes=%r' % (d['call'], d['message'], d['type'], d['attributes']))
+            print('call %d: message %r type=%d attributes=%r  (constructed %s ms after the previous call, time stamp %s; format() %d ms after construction)'
+                  % (d['call'], d['message'], d['type'], d['attributes'], d['constructed_ms_after_previous_call'], d['message_time_stamp'], d['ms_between_construction_and_format']))
             print('   kept object  %r' % d['kept_object_output'])
             print('   fresh object %r%s' % (d['fresh_object_output'], '' if d['fresh_object_output'] == d['kept_object_output'] else '   <-- DIFFERS: format() is not a function of (pattern, message)'))
+            if d['second_call_on_kept_object_output'] != d['kept_object_output']:
+                print('   kept object, same message again %d ms later: %r   <-- DIFFERS' % (d['ms_before_second_format_call'], d['second_call_on_kept_object_output']))
             print('   model        %r   documented %r   oracle %s' % (d['model_output'], d['documented_concatenation'], 'holds' if d['oracle_holds_on_kept_object_output'] else 'FALSIFIED'))
         return 0
     c = r.get('case')
@@ -985,7 +988,11 @@ def replay(path):
         print('implementation CRASHED/THREW: %s' % x.get('impl_raw')); return 0
     ml, _ = model_line(c, vlib.run_lines(impl, [impl_line(c)])[1][0])
     print('tokens         %s' % vlib.run_lines(model, [ml], ['tokens'])[1][0])
+    print('message time   %s (format() called %d ms after the message was constructed)' % (x.get('stamp'), c.get('delay', 0)))
     print('implementation %r' % unhx(x['impl']))
+    for what, key in (('same object, same message again %d ms later' % c.get('again', 0), 'again'), ('fresh object, same message, after that', 'fresh')):
+        if x.get(key, x['impl']) != x['impl']:
+            print('   %s: %r   <-- DIFFERS: the text is not a function of the message' % (what, unhx(x[key])))
     print('model          %r' % unhx(x['model']))
     print('documented     %r  (concatenation of literal text / padded values; %d active removing optional attribute(s))' % (unhx(x['full']), x['nrem']))
     print('in-band (old)  %r' % unhx(vlib.run_lines(model, [ml], ['inband'])[1][0]))
